@@ -11,7 +11,9 @@ crash before COMMIT discards; UNIQUE key rejects an INSERT as a whole), ULID mon
 (one batch per statement kind).
 -/
 import OpenFGAVerif.Proofs.StoreHist
+import OpenFGAVerif.Proofs.StoreKeys
 import OpenFGAVerif.Gen.StoreWrite
+import OpenFGAVerif.Gen.StoreKeys
 
 set_option linter.unusedSimpArgs false
 
@@ -99,6 +101,110 @@ theorem tie_cmd_delete_validation :
 
 /-- one batch per statement kind covers every request the API admits -/
 theorem tie_batch_size : Gen.StoreWrite.defaultMaxTuplesPerWrite = 100 := by decide
+
+/-! ## the identity under which a request key is looked up (sqlite lock key, memory `match`) -/
+
+section Identity
+open OpenFGAVerif.Model.StoreKeys OpenFGAVerif.Proofs.StoreKeys
+
+/-- the field list and the separator of the de-dup key of makeTupleLockKeys, as the source has them -/
+def genLockFields : List LockField := lockFieldsOf Gen.StoreKeys.sqlLockKeyJoin
+def genLockSep : List Char := Gen.StoreKeys.sqlLockKeySep.map Char.ofNat
+
+/-- makeTupleLockKeys joins all seven fields of `tupleLockKey` — object type, object id, relation, user object type,
+    user object id, **user relation**, user type — with "\x00"; the struct has exactly these fields; a key whose string
+    was seen is dropped, every other key is remembered and appended; deletes and writes both go through `add` -/
+theorem tie_lock_key_fields :
+    Gen.StoreKeys.sqlLockKeyJoin = ["objectType", "objectID", "relation", "userObjectType", "userObjectID", "userRelation", "userType"] ∧
+    Gen.StoreKeys.sqlLockKeySep = [0] ∧
+    Gen.StoreKeys.sqlLockKeyStruct = ["objectType", "objectID", "relation", "userObjectType", "userObjectID", "userRelation", "userType"] ∧
+    Gen.StoreKeys.sqlLockKeyDedupTest = "_, ok := seen[s]; ok -> return;" ∧
+    Gen.StoreKeys.sqlLockKeyDedupMarksAndAppends = true ∧
+    Gen.StoreKeys.sqlLockKeyFeeds = ["deletes:add(tupleUtils.TupleKeyWithoutConditionToTupleKey(tk))", "writes:add(tk)"] := by
+  refine ⟨?_, ?_, ?_, ?_, ?_, ?_⟩ <;> decide
+
+/-- every field of the key is filled from the request key the way `LockField.get` reads it: SplitObject of the object,
+    ToUserParts of the user, the relation, GetUserTypeFromUser of the user -/
+theorem tie_lock_key_filled :
+    Gen.StoreKeys.sqlLockKeyAssign = ["objectType=objectType", "objectID=objectID", "relation=tk.GetRelation()",
+      "userObjectType=userObjectType", "userObjectID=userObjectID", "userRelation=userRelation",
+      "userType=tupleUtils.GetUserTypeFromUser(tk.GetUser())"] ∧
+    Gen.StoreKeys.sqlLockKeySplits = ["objectType, objectID := tupleUtils.SplitObject(tk.GetObject())",
+      "userObjectType, userObjectID, userRelation := tupleUtils.ToUserParts(tk.GetUser())"] := by
+  constructor <;> rfl
+
+/-- the SELECT binds the same seven fields to the seven identity columns; rows found are remembered under the whole
+    tuple-key string; the DELETE condition names the same seven columns; both INSERTs carry the identity columns -/
+theorem tie_sql_row_identity :
+    Gen.StoreKeys.sqlRowInArgs = ["objectType", "objectID", "relation", "userObjectType", "userObjectID", "userRelation", "userType"] ∧
+    Gen.StoreKeys.sqlRowInPlaceholder = "(?,?,?,?,?,?,?)" ∧
+    Gen.StoreKeys.sqlRowInColumns = "(object_type, object_id, relation, user_object_type, user_object_id, user_relation, user_type) IN " ∧
+    Gen.StoreKeys.sqlExistingKey = "existing[tupleUtils.TupleKeyToString(tuple.GetKey())] = tuple" ∧
+    Gen.StoreKeys.sqlDeleteWhere = ["object_type=objectType", "object_id=objectID", "relation=tk.GetRelation()",
+      "user_object_type=userObjectType", "user_object_id=userObjectID", "user_relation=userRelation",
+      "user_type=tupleUtils.GetUserTypeFromUser(tk.GetUser())"] ∧
+    Gen.StoreKeys.sqlInsertTupleColumns = ["store", "object_type", "object_id", "relation", "user_object_type", "user_object_id",
+      "user_relation", "user_type", "condition_name", "condition_context", "ulid", "inserted_at"] ∧
+    Gen.StoreKeys.sqlInsertChangelogColumns = ["store", "object_type", "object_id", "relation", "user_object_type", "user_object_id",
+      "user_relation", "condition_name", "condition_context", "operation", "ulid", "inserted_at"] := by
+  refine ⟨?_, ?_, ?_, ?_, ?_, ?_, ?_⟩ <;> rfl
+
+/-- memory.go `match` makes exactly the comparisons `matchRec` mirrors (object type / id, relation, whole user string or
+    user-type prefix), only ever rejects; `find` returns the first record that matches; sanitizeTuplesWriteDelete and the
+    two loops of Write look keys up through `find` / `match` -/
+theorem tie_mem_match_identity :
+    Gen.StoreKeys.memMatchConds = ["target.GetObject() != \"\"", "objectid == \"\"", "td != t.ObjectType",
+      "td != t.ObjectType || objectid != t.ObjectID", "target.GetRelation() != \"\" && t.Relation != target.GetRelation()",
+      "target.GetUser() != \"\"", "userID != \"\" && t.User != target.GetUser()",
+      "userID == \"\" && !strings.HasPrefix(t.User, userType+\":\")"] ∧
+    Gen.StoreKeys.memMatchSplits = ["td, objectid := tupleUtils.SplitObject(target.GetObject())",
+      "userType, userID, _ := tupleUtils.ToUserParts(target.GetUser())"] ∧
+    Gen.StoreKeys.memMatchRejectsOnly = true ∧
+    Gen.StoreKeys.memFindBody = "{ for _, tr := range records { if match(tr, tupleKey) { return tr } } return nil }" ∧
+    Gen.StoreKeys.memSanitizeLookups = ["find(records, tupleUtils.TupleKeyWithoutConditionToTupleKey(tk)) == nil", "record := find(records, tk)"] ∧
+    Gen.StoreKeys.memWriteMatches = ["match(tr, tupleUtils.TupleKeyWithoutConditionToTupleKey(k))", "match(et, t)"] := by
+  refine ⟨?_, ?_, ?_, ?_, ?_, ?_⟩ <;> rfl
+
+/-- the model is run with all seven fields and the NUL separator -/
+theorem lock_key_fields_are_all : genLockFields = LockField.all ∧ genLockSep = [Char.ofNat 0] := by
+  unfold genLockFields genLockSep
+  rw [tie_lock_key_fields.1, tie_lock_key_fields.2.1]
+  constructor <;> decide
+
+/-- **lock_key_injective.** The de-dup key makeTupleLockKeys builds is injective on tuple identity: two request keys
+    (user strings that survive the split into the three user columns, no NUL in any part) with the same key string are
+    the same object, relation and user — user relation included. -/
+theorem lock_key_injective (k1 k2 : TupleKey) (h1 : UserOK k1.user) (h2 : UserOK k2.user)
+    (n1 : NoSep userTypeOf (Char.ofNat 0) k1) (n2 : NoSep userTypeOf (Char.ofNat 0) k2)
+    (h : lockKeyString userTypeOf genLockFields genLockSep k1 = lockKeyString userTypeOf genLockFields genLockSep k2) : k1 = k2 := by
+  rw [lock_key_fields_are_all.1, lock_key_fields_are_all.2] at h
+  exact lockKeyString_injective userTypeOf (Char.ofNat 0) k1 k2 h1 h2 n1 n2 h
+
+/-- **sql_write_uses_tuple_identity.** sqlite.write run with the lock keys the source computes is the write all the
+    theorems above are about (`sqlWrite`, whose look-ups go by the whole (object, relation, user) triple) — for every
+    request, store, option set and failure point. -/
+theorem sql_write_uses_tuple_identity (ceq : TupleRec → TupleRec → Bool) (db : Db) (dels : List TupleKey) (writes : List TupleRec)
+    (o : WriteOpts) (now : Nat) (f : Option Fail) (hk : KeysOK userTypeOf (Char.ofNat 0) (dels ++ writes.map (·.key))) :
+    sqlWriteK (sqlLockKeys userTypeOf genLockFields genLockSep dels writes) ceq genCfg db dels writes o now f
+      = sqlWrite ceq genCfg db dels writes o now f := by
+  rw [lock_key_fields_are_all.1, lock_key_fields_are_all.2]
+  exact sqlWriteK_lockKeys userTypeOf (Char.ofNat 0) ceq genCfg db dels writes o now f hk
+
+/-- memory: `find` / `match` identify a well-formed request key with exactly the stored tuple of the same
+    (object, relation, user) triple -/
+theorem mem_find_is_tuple_identity (t : TupleRec) (k : TupleKey) (h : WfKey k) : matchRec t k = true ↔ t.key = k :=
+  matchRec_wf h
+
+/-- non-vacuity: the two keys of the report (same object, relation, user type and id; user relation member / admin) are
+    covered by the hypotheses, are different, and get different lock keys -/
+example : KeysOK userTypeOf (Char.ofNat 0) [kMember, kAdmin] ∧ kMember ≠ kAdmin ∧
+    lockKeyString userTypeOf LockField.all [Char.ofNat 0] kMember ≠ lockKeyString userTypeOf LockField.all [Char.ofNat 0] kAdmin := by
+  refine ⟨?_, by decide, by decide⟩
+  intro k hk
+  simp only [List.mem_cons, List.not_mem_nil, or_false] at hk
+  rcases hk with rfl | rfl <;> exact ⟨by decide, by decide⟩
+
+end Identity
 
 /-! ## memory backend: all-or-nothing -/
 
